@@ -355,3 +355,82 @@ func translateHeaderPrograms(intByName, rootByName map[string]*ast.File, intCE, 
 		fmt.Fprintf(out, "(* helpers.go: func withConditionalHeaders — the request handed on *)\nDefinition src_with_conditional_headers (q : request) (stored : headers) : request :=\n  %s.\n\n", body)
 	}
 }
+
+// CanStaleOnError: `if len(xs) == 0 { return false }`, then one loop over the variadic sources
+//
+//	for _, x := range xs { if x == nil { continue }; d, ok := x.StaleIfError(); if !ok { continue }; v := e; if c { return true } }; return false
+//
+// as a Fixpoint over a list of optional durations: an element is None when the source is nil or carries no usable
+// stale-if-error (the two `continue`s), Some d otherwise.
+func translateCanStaleOnError(intByName map[string]*ast.File, intCE *cenv, out *strings.Builder) {
+	fd := findFunc(intByName, "cacheabilityevaluator.go", "CanStaleOnError")
+	t := &htr{name: "CanStaleOnError", ce: intCE, table: map[string]hval{
+		"freshness.Age.Value": {"f_age f", "D"}, "freshness.Age.Timestamp": {"f_age_ts f", "T"}, "freshness.UsefulLife": {"f_life f", "D"}}}
+	list := fd.Body.List
+	if len(list) != 3 {
+		die("CanStaleOnError: expected the empty-list test, one loop and the final return")
+	}
+	guard, ok := list[0].(*ast.IfStmt)
+	if !ok || guard.Init != nil || guard.Else != nil || len(guard.Body.List) != 1 || stmtString(guard.Body.List[0]) != "return false" || !strings.HasPrefix(exprString(guard.Cond), "len(") || !strings.HasSuffix(exprString(guard.Cond), ") == 0") {
+		die("CanStaleOnError: unsupported first statement: %s", stmtString(list[0]))
+	}
+	loop, ok := list[1].(*ast.RangeStmt)
+	if !ok || loop.Value == nil || exprString(loop.Key) != "_" {
+		die("CanStaleOnError: expected `for _, x := range xs`")
+	}
+	if stmtString(list[2]) != "return false" {
+		die("CanStaleOnError: expected to end in `return false`")
+	}
+	x := exprString(loop.Value)
+	body := loop.Body.List
+	if len(body) < 4 {
+		die("CanStaleOnError: loop body too short")
+	}
+	nilTest, ok1 := body[0].(*ast.IfStmt)
+	acc, ok2 := body[1].(*ast.AssignStmt)
+	validTest, ok3 := body[2].(*ast.IfStmt)
+	if !ok1 || !ok2 || !ok3 || exprString(nilTest.Cond) != x+" == nil" || !isContinue(nilTest.Body) || len(acc.Lhs) != 2 || len(acc.Rhs) != 1 ||
+		exprString(acc.Rhs[0]) != x+".StaleIfError()" || exprString(validTest.Cond) != "!"+exprString(acc.Lhs[1]) || !isContinue(validTest.Body) {
+		die("CanStaleOnError: the loop does not start with the nil test, the accessor and the validity test")
+	}
+	env := &henv{vars: map[string]hval{exprString(acc.Lhs[0]): {"dur", "D"}}, isNil: map[string]bool{}, hdrOf: map[string]string{}}
+	t.table["cce.clock.Since(freshness.Age.Timestamp)"] = hval{"time_sub now (f_age_ts f)", "D"}
+	var lets []string
+	rest := body[3:]
+	for len(rest) > 1 {
+		as, ok := rest[0].(*ast.AssignStmt)
+		if !ok || len(as.Lhs) != 1 || len(as.Rhs) != 1 {
+			die("CanStaleOnError: unsupported statement in the loop: %s", stmtString(rest[0]))
+		}
+		v := t.expr(as.Rhs[0], env)
+		name := t.sym("v")
+		lets = append(lets, fmt.Sprintf("let %s := %s in", name, v.s))
+		env.vars[exprString(as.Lhs[0])] = hval{name, v.k}
+		rest = rest[1:]
+	}
+	last, ok := rest[0].(*ast.IfStmt)
+	if !ok || last.Init != nil || last.Else != nil || len(last.Body.List) != 1 || stmtString(last.Body.List[0]) != "return true" {
+		die("CanStaleOnError: the loop must end in `if c { return true }`")
+	}
+	cmp, ok := last.Cond.(*ast.BinaryExpr)
+	if !ok {
+		die("CanStaleOnError: unsupported window test %s", exprString(last.Cond))
+	}
+	a, b := t.expr(cmp.X, env), t.expr(cmp.Y, env)
+	var c string
+	switch cmp.Op {
+	case token.LSS:
+		c = fmt.Sprintf("(%s) <? (%s)", a.s, b.s)
+	case token.LEQ:
+		c = fmt.Sprintf("(%s) <=? (%s)", a.s, b.s)
+	case token.GTR:
+		c = fmt.Sprintf("(%s) <? (%s)", b.s, a.s)
+	case token.GEQ:
+		c = fmt.Sprintf("(%s) <=? (%s)", b.s, a.s)
+	default:
+		die("CanStaleOnError: unsupported window test %s", exprString(last.Cond))
+	}
+	fmt.Fprintf(out, "(* internal/cacheabilityevaluator.go: staleIfErrorPolicy.CanStaleOnError — the loop over the sources *)\n")
+	fmt.Fprintf(out, "Fixpoint src_can_stale_on_error_loop (f : freshness) (sies : list (option Z)) (now : Z) : bool :=\n  match sies with\n  | [] => false\n  | None :: rest => src_can_stale_on_error_loop f rest now\n  | Some dur :: rest =>\n  %s\n  if %s then true else src_can_stale_on_error_loop f rest now\n  end.\n\n", strings.Join(lets, "\n  "), c)
+	fmt.Fprintf(out, "Definition src_can_stale_on_error (f : freshness) (sies : list (option Z)) (now : Z) : bool :=\n  if (Z.of_nat (List.length sies)) =? 0 then false else src_can_stale_on_error_loop f sies now.\n\n")
+}
